@@ -109,7 +109,22 @@ class FS:
             def close(self, fd):
                 fs.tick("close-fd", fd)
 
+            def unlink(self, p):
+                fs.tick("unlink", p)
+                if p not in fs.files:
+                    raise FileNotFoundError(p)
+                del fs.files[p]
+                fs.tick("unlinked", p)
+
+            remove = unlink
+
+            def listdir(self, d="."):
+                fs.tick("listdir", d)
+                return sorted(_os.path.basename(p) for p in fs.files if _os.path.dirname(p) == d.rstrip("/"))
+
             def __getattr__(self, name):
+                if name in ("error", "EX_OK", "linesep", "curdir", "pardir", "extsep", "altsep", "name", "fspath"):
+                    return getattr(_os, name)
                 raise Unsupported("os.%s is not modelled" % name)
 
         FakeOS = _OS()
@@ -135,6 +150,20 @@ class FS:
                 fs.files[b] = dst
                 fs.tick("copy-done", b)
 
+        class FakeGlob:
+            @staticmethod
+            def glob(pattern, **kw):
+                import fnmatch
+                fs.tick("glob", pattern)
+                return sorted(fnmatch.filter(list(fs.files), pattern))
+
+            iglob = glob
+
+            @staticmethod
+            def escape(p):
+                import glob as _g
+                return _g.escape(p)
+
         class FakeSqlite:
             OperationalError = _sqlite3.OperationalError
             DatabaseError = _sqlite3.DatabaseError
@@ -155,10 +184,15 @@ class FS:
                 return c
 
         # (a module the working tree does not import is simply not there to be replaced)
-        self.saved = {n: mod.__dict__[n] for n in ("os", "tempfile", "shutil", "sqlite3") if n in mod.__dict__}
-        for n, fake in (("os", FakeOS), ("tempfile", FakeTemp), ("shutil", FakeShutil), ("sqlite3", FakeSqlite)):
+        self.saved = {n: mod.__dict__[n] for n in ("os", "tempfile", "shutil", "sqlite3", "glob") if n in mod.__dict__}
+        for n, fake in (("os", FakeOS), ("tempfile", FakeTemp), ("shutil", FakeShutil), ("sqlite3", FakeSqlite),
+                        ("glob", FakeGlob)):
             if n in self.saved:
                 setattr(mod, n, fake)
+        # any other module of the standard library that reaches the file system is outside the model
+        for n in ("pathlib", "io", "fnmatch", "subprocess"):
+            if n in mod.__dict__ and n not in self.saved:
+                raise Unsupported("database.py imports %s: file-system access outside the model" % n)
 
     def uninstall(self, mod):
         for n, real in self.saved.items():
